@@ -2,7 +2,7 @@
 from core import Ob, Wrapper
 import grid as G
 
-ASSUMPTIONS = ['floating scalar division (both reps) and double scalar multiplication are NOT decided bit for bit (two symbolic IEEE dividers / 53-bit multipliers are equated by no installed back end); the integer versions and float scalar multiplication are',
+ASSUMPTIONS = ['floating scalar division (both reps) and double scalar multiplication are decided as STRUCTURAL obligations (one application of the raw operator to the stored value and the scalar; the operator is uninterpreted on both sides, because two symbolic IEEE dividers / 53-bit multipliers are equated by no installed back end); the integer versions, float scalar multiplication, + and - are compared with the concrete operator bit for bit',
                'sizeof/alignof/trivially-copyable/standard-layout and result TYPES are compile-time facts, not decided by a contract',
                'sub-int reps: operator% and unary +/- are rejected by clang (narrowing in `return {...}`) and accepted by g++; those instances are lowered with -Wno-c++11-narrowing',
                '"raw operator" means the C++ built-in operator on the promoted operands, followed by the conversion to the result rep the library performs; '
@@ -142,9 +142,16 @@ def obligations(tier, seed):
         for nm, expr, spec, two in (('plus', '(%s + %s)' % (mk('a'), mk('b')), 'a + b', True), ('minus', '(%s - %s)' % (mk('a'), mk('b')), 'a - b', True),
                                     ('scalarmul', '(%s * b)' % mk('a'), 'a * b', True), ('scalardiv', '(%s / b)' % mk('a'), 'a / b', True),
                                     ('uminus', '(-%s)' % mk('a'), '-a', False)):
-            if nm == 'scalardiv' or (rep == 'f64' and nm == 'scalarmul'): continue    # two symbolic IEEE dividers / 53-bit multipliers: equated by no back end within 75 minutes; not generated (see ASSUMPTIONS)   # 53-bit multiplier/divider equivalence: thorough only
             ins = [(ct, 'a'), (ct, 'b')] if two else [(ct, 'a')]
             w = Wrapper('w_%s_%s' % (nm, rep), ct, ins, 'return %s.in(%s{});' % (expr, U))
+            if nm == 'scalardiv' or (rep == 'f64' and nm == 'scalarmul'):
+                # two symbolic IEEE dividers / 53-bit multipliers are equated by no back end: decided as a STRUCTURAL obligation (operator uninterpreted on both sides)
+                fop = 'LL2C_F%s%s(a, b)' % ('DIV' if nm == 'scalardiv' else 'MUL', '32' if rep == 'f32' else '64')
+                body = '\n  CHECK(%s(%s(a, b)) == %s(%s), "%s-is-one-application-of-the-raw-operator-to-the-stored-value");\n' % (bits, w.name, bits, fop, nm)
+                obs.append(Ob(id='C13.fp.%s.%s' % (nm, rep), prop='C13', group=grp, prelude=pre, wrappers=[w], inputs=ins, body=body, fp=True, budget=120, defs=('LL2C_UF_FP=1',),
+                              contract='forall bit patterns: same-unit %s on %s is one application of the raw operator to the stored value and the scalar, bit for bit (structural: the '
+                                       'operator is uninterpreted on both sides)' % (nm, ct), functions_under_contract=('au::operator (%s) on Quantity<U,%s>' % (nm, ct),)))
+                continue
             body = '\n  %s r = %s(%s);\n  %s e = %s;\n  CHECK(%s, "%s-is-raw-operator-bit-for-bit");\n' % (ct, w.name, 'a, b' if two else 'a', ct, spec, same('r', 'e'), nm)
             obs.append(Ob(id='C13.fp.%s.%s' % (nm, rep), prop='C13', group=grp, prelude=pre, wrappers=[w], inputs=ins, body=body, fp=True,
                           budget=120 if tier == 'quick' else 900,
